@@ -1,6 +1,7 @@
 import DoviModel.Model.Editor
 import DoviModel.Proofs.EditGenProof
 import DoviModel.Proofs.EditorOpsProof
+import DoviModel.Gen.SourceRules
 /-! # C09 — the RPU editor applies exactly the configured edits to exactly the configured frames -/
 namespace Dovi.C09
 open Dovi Dovi.Editor Dovi.EditGenProof Dovi.EditorOpsProof
@@ -504,5 +505,14 @@ example : Plain { remove := some ["0", "3-4"], sceneCuts := some [("1-2", true)]
     intro hall
     have := congrArg String.toList hall
     simp [String.toLower, String.toList_map] at this
+
+/-- **source tie** (Gen/SourceRules.lean is regenerated from /repo on every run): `source_meta_from_l6` of level6.rs —
+the thresholds and the table that turn an L6 block into default source min/max PQ — as it stands in the source
+now is the model's `sourceMetaFromL6`, for every block -/
+theorem source_l6_levels_agree (b : Block) :
+    Src.sourceMetaFromL6 b = (Int.ofNat (sourceMetaFromL6 b).1, Int.ofNat (sourceMetaFromL6 b).2) := by
+  unfold Src.sourceMetaFromL6 sourceMetaFromL6
+  simp only [Prod.mk.injEq]
+  constructor <;> (repeat' split) <;> simp_all
 
 end Dovi.C09
